@@ -60,5 +60,11 @@ func (r *DecoratorResolver) ResolveIdent(file *ast.File, parent ast.Node, parent
 		return "", nil
 	}
 
+	if obj.Parent() != pkg.Scope() {
+		// not declared at package level (e.g. a local variable, parameter or label) -> can't be
+		// referenced from another package, so never needs a qualified ident
+		return "", nil
+	}
+
 	return pkg.Path(), nil
 }
